@@ -10,7 +10,9 @@ import LitexModel.Fhdl.IntBits
                                   context size and type are pushed down to the context-determined operands,
                                   a primary is extended to the context size, sign-extended only if the
                                   propagated type is signed)
-  * `ideal ρ e`                : the same expression read over unbounded integers (no wrap-around)
+  * `ideal ρ e`                : the same expression read over unbounded integers (no wrap-around; the
+                                  condition of `?:` is a self-determined boundary and is tested on its
+                                  `selfWidth` low bits, which is exactly what Verilog tests)
   * `fitsV ρ e W sg`           : at every self-determined boundary of `e` the unbounded value is representable
                                   in the width/type Verilog gives it — the side condition under which
                                   `evalV ρ W sg e = ideal ρ e mod 2^W` (proved in LitexProofs/Verilog)
@@ -167,7 +169,7 @@ def ideal (ρ : Nat → Int) : VExpr → Int
   | .un .neg a => - ideal ρ a
   | .un .not a => notI (ideal ρ a)
   | .bin o a b => idealBin o (ideal ρ a) (ideal ρ b)
-  | .cond c a b => if ideal ρ c ≠ 0 then ideal ρ a else ideal ρ b
+  | .cond c a b => if tn (selfWidth c) (ideal ρ c) ≠ 0 then ideal ρ a else ideal ρ b
   | .psel a hi lo => tn (hi - lo + 1) (ideal ρ a / p2 lo)
   | .bsel a i => tn 1 (ideal ρ a / p2 i)
   | .concat l => idealConcat ρ l
@@ -199,8 +201,7 @@ def fitsV (ρ : Nat → Int) : VExpr → Nat → Bool → Bool
         && (match o with | .shr => decide (0 < W) && inRange W sg (ideal ρ a) | _ => true)
     else fitsV ρ a W sg && fitsV ρ b W sg
   | .cond c a b, W, sg =>
-    fitsV ρ c (selfWidth c) (selfSigned c) && decide (0 < selfWidth c)
-      && inRange (selfWidth c) (selfSigned c) (ideal ρ c) && fitsV ρ a W sg && fitsV ρ b W sg
+    fitsV ρ c (selfWidth c) (selfSigned c) && fitsV ρ a W sg && fitsV ρ b W sg
   | .psel a hi lo, W, sg =>
     fitsV ρ a (selfWidth a) (selfSigned a) && decide (hi < selfWidth a) && decide (lo ≤ hi)
       && fitsAt (hi - lo + 1) W sg (tn (hi - lo + 1) (ideal ρ a / p2 lo))
